@@ -58,7 +58,9 @@ func OnErrorResumeNextWith[T any](finally ...Observable[T]) func(Observable[T]) 
 			return source
 		}
 
-		finally = append([]Observable[T]{source}, finally...)
+		// a local list: reassigning the captured `finally` would make every further
+		// application of this operator value prepend its source to the previous list
+		all := append([]Observable[T]{source}, finally...)
 
 		return NewUnsafeObservableWithContext(func(subscriberCtx context.Context, destination Observer[T]) Teardown {
 			subscriptions := NewSubscription(nil)
@@ -67,14 +69,14 @@ func OnErrorResumeNextWith[T any](finally ...Observable[T]) func(Observable[T]) 
 
 			var err error
 
-			for i := range finally {
+			for i := range all {
 				if subscriptions.IsClosed() {
 					break
 				}
 
 				err = nil
 
-				sub := finally[i].SubscribeWithContext(
+				sub := all[i].SubscribeWithContext(
 					subscriberCtx,
 					NewObserverWithContext(
 						destination.NextWithContext,
